@@ -61,7 +61,8 @@ def run(spec):
             self.topic = topic
             self.payload = payload.encode() if isinstance(payload, str) else payload
 
-    commands = sorted(spec.get("commands") or [])
+    commands = sorted([list(c) for c in (spec.get("commands") or [])] + [[t, "", "<snapshot>"] for t in (spec.get("snapshots") or [])], key=lambda c: (c[0], c[1] != ""))
+    snapshots = []
     crash = spec.get("crash")
     sigterm_at = spec.get("sigterm_at")
     dac_fault_at = spec.get("dac_fault_at")
@@ -98,6 +99,10 @@ def run(spec):
         while commands and commands[0][0] * 1e6 <= until:
             t, topic, payload = commands.pop(0)
             w.run_until(max(w.now_us, int(t * 1e6)))
+            if payload == "<snapshot>" and topic == "":
+                snapshots.append({"t": t, "levels": {str(k): v for k, v in levels_of(buf.getvalue()).items()},
+                                  "states": {a.sim_name: getattr(a, "state", None) for a in w.actors if hasattr(a, "state") and a.actor_ref.is_alive()}})
+                continue
             c = state["client"]
             if c is not None and c.on_message is not None:
                 c.on_message(c, None, Msg(topic, payload))
@@ -128,10 +133,20 @@ def run(spec):
             if h:
                 h(signal.SIGTERM, None)
 
+    def levels_of(text):
+        level = {}
+        for m in re.finditer(r"Set pin\(s\) (\[[^\]]*\]|\d+) to (\[[^\]]*\]|True|False)", text):
+            pins = json.loads(m.group(1)) if m.group(1).startswith("[") else [int(m.group(1))]
+            vals_s = m.group(2)
+            vals = [v.strip() == "True" for v in vals_s.strip("[]").split(",")] if vals_s.startswith("[") else [vals_s == "True"] * len(pins)
+            for p, v in zip(pins, vals):
+                level[p] = v
+        return level
+
+    buf = io.StringIO()
     real_sleep, real_signal, real_print = _time.sleep, signal.signal, builtins.print
     _time.sleep = vsleep
     signal.signal = lambda s, h: state["handlers"].__setitem__(s, h)
-    buf = io.StringIO()
     builtins.print = lambda *a, **k: buf.write(" ".join(str(x) for x in a) + k.get("end", "\n"))
     argv = sys.argv
     sys.argv = ["poupool.py", "--fake-devices", "--log-config", "/nonexistent"]
@@ -163,7 +178,7 @@ def run(spec):
     alive = [a.sim_name for a in w.actors if a.actor_ref.is_alive()]
     res = {"exit": code, "error": err, "levels": {str(k): v for k, v in level.items()}, "arduino_direction": ard, "alive_after": alive, "dead": w.dead,
            "t_death_us": state["t_death"], "t_signal_us": state["t_signal"], "t_end_us": w.now_us, "deadlock": w.deadlock, "timeout": state.get("timeout", False),
-           "crash_msg": state.get("crash_msg"), "crashed": bool(state.get("crashed"))}
+           "crash_msg": state.get("crash_msg"), "crashed": bool(state.get("crashed")), "snapshots": snapshots}
     w.close()
     return res
 
